@@ -11,42 +11,13 @@ open JanetModel.Parse JanetModel.PP JanetModel.Gen.Parse
 
 /-! ## termination of the inner loop of `janet_parser_consume` -/
 
-theorem loop_total (scan : List B → Option String) (c : B) :
-    ∀ fuel p, mu p c < fuel → (consumeLoop scan fuel p c).isSome = true := by
-  intro fuel
-  induction fuel with
-  | zero => intro p h; omega
-  | succ n ih =>
-    intro p h
-    unfold consumeLoop
-    by_cases he : p.error.isSome = true
-    · simp [he]
-    · simp only [he]
-      cases hstep : step scan p c with
-      | mk p' consumed =>
-        cases consumed with
-        | true => simp
-        | false =>
-          have hm := step_measure scan p c (by rw [hstep])
-          rw [hstep] at hm
-          simp only [Bool.false_eq_true, if_false]
-          rcases hm with he' | hlt
-          · have h1 : 1 ≤ mu p c := mu_pos p c
-            cases n with
-            | zero => omega
-            | succ k => unfold consumeLoop; simp [he']
-          · exact ih p' (by simp only at hlt; omega)
-
 /-- ★ The `while (!consumed && !parser->error)` loop terminates from EVERY parser state (well-formed or not) on every
     byte: the fuel `2 * statecount + 3` the model gives it is never exhausted.  Each non-consuming step pops a frame
     (tokenchar, longstring end), replaces the top frame (atsign -> tokenchar) or pushes a tokenchar frame that
     consumes next (root). -/
 theorem consume_total (scan : List B → Option String) (p : Parser) (c : B) :
-    (consumeLoop scan (loopFuel p) p c).isSome = true := by
-  apply loop_total
-  have := mu_le p c
-  unfold loopFuel
-  omega
+    (consumeLoop scan (loopFuel p) p c).isSome = true :=
+  consumeLoop_total scan p c
 
 /-- the position update of `consume` does not change the stack, so the bound also holds inside `consumeRaw` -/
 theorem consumeRaw_never_out_of_fuel (scan : List B → Option String) (p : Parser) (c : B) :
